@@ -81,9 +81,11 @@ Definition D_SAMPLE : N := 2.
 (** One Start.  [parent]: the span context in the context handed to Start (the
     zero context if none, or if a new root was demanded); [gen_t], [gen_s]: what
     the ID generator returned for this Start; [d], [ts]: decision and tracestate the
-    sampler answered; observed: the span's context [c], IsRecording, whether the
-    ended span reached the exporter. *)
-Definition start_ok (parent : octx) (gen_t gen_s : bytes) (d : N) (ts : bytes)
+    sampler answered; [stock]: the provider's sampler is built from the SDK's own
+    samplers only (no user sampler that could supply another tracestate);
+    observed: the span's context [c], IsRecording, whether the ended span reached
+    the exporter. *)
+Definition start_ok (stock : bool) (parent : octx) (gen_t gen_s : bytes) (d : N) (ts : bytes)
            (c : octx) (recording exported : bool) : bool :=
   (* identity *)
   bytes_eqb (o_sid c) gen_s &&
@@ -94,8 +96,10 @@ Definition start_ok (parent : octx) (gen_t gen_s : bytes) (d : N) (ts : bytes)
   (o_flags c / 2 =? o_flags parent / 2) &&
   Bool.eqb recording (negb (d =? D_DROP)) &&
   Bool.eqb exported (sampled_flag (o_flags c)) &&
-  (* tracestate: what the sampler answered *)
-  bytes_eqb (o_ts c) ts.
+  (* tracestate: what the sampler answered; the parent's - for EVERY decision, dropped
+     spans included: their context is what travels downstream - unless a user sampler supplied another *)
+  bytes_eqb (o_ts c) ts &&
+  implb stock (bytes_eqb (o_ts c) (o_ts parent)).
 
 (** Validity and connectedness given a generator that returns valid ids. *)
 Definition ids_ok (parent : octx) (gen_t gen_s : bytes) (c : octx) : bool :=
